@@ -138,8 +138,12 @@ func (r *CleanRule) UnmarshalJSON(bs []byte) error {
 }
 
 func (r *CleanRule) MarshalJSON() ([]byte, error) {
-	x := (*Rule)(r)
-	x.Action = nil
+	// A copy: the rule is shared (the states cache parsed rules and
+	// hand the same one to every event that finds it), and requests
+	// render their work concurrently.
+	c := Rule(*r)
+	c.Action = nil
+	x := &c
 	buf, err := json.Marshal(&x)
 	if err != nil {
 		return nil, err
